@@ -14,13 +14,30 @@
 
 using namespace ex;
 
+#include <sys/mman.h>
 static vj::Args args;
 static std::string dbDir;
+static char* g_current = nullptr;  // shared page: the execution in progress (for crash attribution)
+static void noteCurrent(const std::string& s) { if (g_current) { strncpy(g_current, s.c_str(), 65535); g_current[65535] = 0; } }
 
 struct Mode_ {
-  std::string name;  // "mem", "db", "db+force", ...
+  std::string name;  // "mem", "db", "db+force", "db+k1", ...
   bool useDB = false, resolveForce = false, syncDefault = false;
+  int keyset = 0;    // hostile key spellings (C03)
 };
+static std::map<char, std::string> keyset(int n) {
+  switch (n) {
+  case 1:  // spellings SQLite's numeric affinity could identify
+    return {{'a', "1"}, {'b', "01"}, {'c', "1.0"}, {'d', "1e0"}, {'x', " 1"}, {'y', "+1"}, {'z', "1e3"}, {'w', "1000"}};
+  case 2:  // NUL, prefixes of each other, high bytes
+    return {{'a', std::string("a\0", 2)}, {'b', std::string("a\0b", 3)}, {'c', "a"}, {'d', std::string("\0", 1)}, {'x', "\xff\xfe"}, {'y', "\x80"}, {'z', std::string("\0\0", 2)}, {'w', "\xc3\xa9"}};
+  case 3:  // very long, quotes, SQL-ish
+    return {{'a', std::string(65536, 'k')}, {'b', std::string(65536, 'k') + "2"}, {'c', "x'y\"z"}, {'d', "%_"}, {'x', "'; DROP TABLE rule_results; --"}, {'y', "0x10"}, {'z', "16"}, {'w', "-0"}};
+  case 4:  // more numeric aliases
+    return {{'a', "0"}, {'b', "-0"}, {'c', "0.0"}, {'d', "00"}, {'x', "1 "}, {'y', "1"}, {'z', "0e0"}, {'w', ".0"}};
+  }
+  return {};
+}
 static bool parseMode(const std::string& s, Mode_& m) {
   m = Mode_();
   m.name = s;
@@ -31,6 +48,7 @@ static bool parseMode(const std::string& s, Mode_& m) {
     else if (t == "db") m.useDB = true;
     else if (t == "force") m.resolveForce = true;
     else if (t == "sync") m.syncDefault = true;
+    else if (t.size() == 2 && t[0] == 'k') m.keyset = t[1] - '0';
     else return false;
   }
   return true;
@@ -64,6 +82,7 @@ static const char* kCurated[] = {
     "a: x #cell; b: a",
     "a: x #never; b: a y",
     "a: x y %collapse #cell; b: a #cell",
+    "a: x #never %force; b: a; c: b y",
     // redefinition across restarts
     "a: x; a': y; b: a",
     "a: x; b: a y; b': a",
@@ -134,10 +153,12 @@ struct Explorer {
     cfg.resolveForce = m.resolveForce;
     cfg.syncDefault = m.syncDefault;
     cfg.dbPath = dbDir + "/build.db";
+    if (m.keyset) { cfg.rename = keyset(m.keyset); cfg.hostileValues = true; }
   }
 
   RunOut run(const History& h, bool judgeAll = false, bool wantKey = true) {
     RunOut out;
+    noteCurrent(mode.name + "|" + w.spec + "|" + historyStr(h));
     Session s(w, cfg, res);
     s.replayPrefix = mode.name + "|" + w.spec + "|";
     for (size_t i = 0; i < h.size(); ++i) {
@@ -185,6 +206,7 @@ struct Explorer {
     for (char k : w.derived) { Event e; e.kind = 'b'; e.key = k; out.push_back(e); }
     if (args.thorough())
       for (char k : w.leaves) { Event e; e.kind = 'b'; e.key = k; out.push_back(e); }
+    if (mode.useDB && args.prop == "C20") { Event v; v.kind = 'v'; out.push_back(v); }
     if (mode.useDB) {
       Event e; e.kind = 'r'; out.push_back(e);
       for (auto& kv : w.alt) { Event d; d.kind = 'd'; d.key = kv.first; out.push_back(d); }
@@ -263,6 +285,7 @@ struct Explorer {
             visit(hh, o, node.cancels);
             uncancelled.push_back(hh);
             if (splitDifferential && hh.back().choices.empty()) checkSplit(hh, o);
+            if (args.prop == "C20") twin(hh);
           });
           if (node.cancels < maxCancels) {
             // cancellation at every step of every explored schedule of this build
@@ -323,6 +346,52 @@ struct Explorer {
     }
   }
 
+  // C20: the same history through the C++ interface and through the libllbuild
+  // C interface must produce the same client-visible event sequence and the
+  // same persisted state.
+  void twin(const History& h) {
+    std::vector<std::string> logs[2];
+    std::string dumps[2];
+    for (int side = 0; side < 2; ++side) {
+      vj::Result scratch;
+      Config c = cfg;
+      c.capi = side == 1;
+      c.logEvents = true;
+      c.checkC02 = false; c.checkProto = false; c.checkPersist = false; c.checkC07 = false; c.checkC01 = side == 1;
+      c.dbPath = dbDir + (side ? "/c.db" : "/cxx.db");
+      {
+        Session s(w, c, scratch);
+        for (auto& ev : h) { s.apply(ev); if (s.dead) break; }
+        logs[side] = s.elog;
+        if (c.useDB) {
+          DBDump dd = readDatabase(c.dbPath, s.cfg.clientVersion);
+          dumps[side] = "epoch=" + std::to_string(dd.epoch) + (dd.ok ? "" : " ERROR " + dd.error) + "\n";
+          for (auto& kv : dd.recs) dumps[side] += Session::hexs(kv.second.str()) + "\n";
+        }
+      }
+      for (auto& v : scratch.violations)
+        res.violate(args.prop + ".c-api-" + v.cls.substr(v.cls.find('.') + 1), "through the C API: " + v.what, "twin|" + mode.name + "|" + w.spec + "|" + historyStr(h));
+    }
+    res.count("twin_runs");
+    res.count("twin_events", (long long)logs[0].size());
+    size_t i = 0;
+    while (i < logs[0].size() && i < logs[1].size() && logs[0][i] == logs[1][i]) ++i;
+    if (i < logs[0].size() || i < logs[1].size()) {
+      std::string a = i < logs[0].size() ? logs[0][i] : "<end>", b = i < logs[1].size() ? logs[1][i] : "<end>";
+      std::string prev = i ? logs[0][i - 1] : "<start>";
+      // classify by the kind of the first differing event and whether a forced change is involved
+      std::string kind = a.substr(0, a.find(' '));
+      bool forced = false;
+      for (size_t j = 0; j < i; ++j) if (logs[0][j].find(" force") != std::string::npos) forced = true;
+      std::string cls = args.prop + (forced ? ".event-log-differs-after-forced-change" : ".event-log-differs-at-" + kind);
+      res.violate(cls, "event #" + std::to_string(i) + ": C++ interface '" + a + "', C interface '" + b + "' (previous event '" + prev + "') | world: " + w.spec + " | history: " + historyStr(h),
+                  "twin|" + mode.name + "|" + w.spec + "|" + historyStr(h));
+    } else if (dumps[0] != dumps[1]) {
+      res.violate(args.prop + ".persisted-state-differs", "database after the history differs between the two interfaces | world: " + w.spec + " | history: " + historyStr(h),
+                  "twin|" + mode.name + "|" + w.spec + "|" + historyStr(h));
+    }
+  }
+
   // C06 (order): all schedules of the last build of each prefix yield the same outcome and state.
   void allSchedules(const History& h, long cap) {
     std::string firstKey, firstSummary, firstSched;
@@ -349,10 +418,15 @@ struct Explorer {
 };
 
 // ---------------------------------------------------------------------------
+static void versionMatrix(const uv::World& w, vj::Result& res);
+static void lockMatrix(const uv::World& w, vj::Result& res);
+
 static void exploreWorld(const std::string& spec, const std::string& modeName, vj::Result& res) {
   uv::World w;
   std::string err;
   if (!uv::parseWorld(spec, w, &err)) { fprintf(stderr, "bad world: %s\n", err.c_str()); exit(3); }
+  if (modeName == "@matrix") { versionMatrix(w, res); return; }
+  if (modeName == "@lock") { lockMatrix(w, res); return; }
   Mode_ m;
   if (!parseMode(modeName, m)) { fprintf(stderr, "bad mode %s\n", modeName.c_str()); exit(3); }
   Explorer ex(w, m, res);
@@ -365,11 +439,17 @@ static void exploreWorld(const std::string& spec, const std::string& modeName, v
     ex.cfg.checkC01 = false; ex.cfg.checkProto = false; ex.cfg.checkC07 = false; ex.cfg.checkPersist = false;
     ex.bfs(T ? 5 : 4, T ? 1 : 0, 1, false);
   } else if (p == "C03") {
-    ex.cfg.checkC01 = false; ex.cfg.checkC02 = false; ex.cfg.checkProto = false; ex.cfg.checkC07 = false;
-    ex.bfs(T ? 5 : 4, 0, 0, true);
+    ex.cfg.checkC01 = m.keyset != 0; ex.cfg.checkC02 = false; ex.cfg.checkProto = false; ex.cfg.checkC07 = false;
+    ex.bfs(m.keyset ? (T ? 4 : 3) : (T ? 5 : 4), 0, 0, true);
   } else if (p == "C05") {
     ex.cfg.checkC02 = false; ex.cfg.checkProto = false; ex.cfg.checkC07 = false;
     ex.bfs(T ? 5 : 4, T ? 1 : 0, 1, false);
+  } else if (p == "C20") {
+    ex.cfg.checkC02 = false; ex.cfg.checkProto = false; ex.cfg.checkC07 = false; ex.cfg.checkPersist = false;
+    ex.cfg.hostileValues = true;
+    // keys with NUL, 0xFF and a numeric-looking spelling
+    ex.cfg.rename = {{'a', std::string("a\0z", 3)}, {'b', std::string("\xff b")}, {'c', "01"}, {'x', std::string("x\0", 2)}, {'y', std::string("\0", 1)}, {'z', "1"}};
+    ex.bfs(T ? 5 : 4, T ? 1 : 0, 0, false);
   } else if (p == "C07") {
     ex.cfg.checkC01 = false; ex.cfg.checkC02 = false; ex.cfg.checkProto = false; ex.cfg.checkPersist = false;
     ex.bfs(T ? 4 : 3, 1, 0, false);
@@ -409,6 +489,142 @@ static void exploreWorld(const std::string& spec, const std::string& modeName, v
   res.count("distinct_outcomes", (long long)ex.outcomes.size());
 }
 
+// ---- C03 (4): schema/client version matrix and database lock -------------------
+static std::string sh(const std::string& cmd) {
+  std::string out;
+  FILE* p = popen(cmd.c_str(), "r");
+  if (!p) return "";
+  char buf[512];
+  while (fgets(buf, sizeof buf, p)) out += buf;
+  pclose(p);
+  while (!out.empty() && isspace((unsigned char)out.back())) out.pop_back();
+  return out;
+}
+static std::string fileHash(const std::string& path) { return sh("md5sum '" + path + "' 2>/dev/null | cut -d' ' -f1"); }
+
+static void versionMatrix(const uv::World& w, vj::Result& res) {
+  std::string path = dbDir + "/matrix.db";
+  History h;
+  parseHistory("b b, s x 1, b b", h);
+  // schema version the code under test writes: read from a database it just created
+  int S = -1;
+  {
+    vj::Result scratch;
+    Config c;
+    c.useDB = true; c.dbPath = path; c.clientVersion = 1;
+    c.checkC02 = false; c.checkProto = false; c.checkC07 = false; c.checkPersist = false;
+    Session s(w, c, scratch);
+    for (auto& ev : h) s.apply(ev);
+  }
+  S = atoi(sh("sqlite3 '" + path + "' 'SELECT version FROM info;'").c_str());
+  for (int stored = 0; stored < 4; ++stored)        // 0: no info table, 1: S-1, 2: S, 3: S+1
+    for (uint32_t c = 0; c < 3; ++c)
+      for (uint32_t c2 = 0; c2 < 3; ++c2)
+        for (int recreate = 0; recreate < 2; ++recreate) {
+          ::unlink(path.c_str());
+          {
+            vj::Result scratch;
+            Config cf;
+            cf.useDB = true; cf.dbPath = path; cf.clientVersion = c;
+            cf.checkC02 = false; cf.checkProto = false; cf.checkC07 = false; cf.checkPersist = false;
+            Session s(w, cf, scratch);
+            for (auto& ev : h) s.apply(ev);
+          }
+          if (stored == 0) sh("sqlite3 '" + path + "' 'DROP TABLE info;'");
+          else if (stored != 2) sh("sqlite3 '" + path + "' 'UPDATE info SET version=" + std::to_string(S + stored - 2) + ";'");
+          DBDump before = stored == 0 ? DBDump() : DBDump();
+          std::string rows = sh("sqlite3 '" + path + "' 'SELECT count(*) FROM rule_results;'");
+          std::string hashBefore = fileHash(path);
+          bool same = stored == 2 && c == c2;
+          std::string err;
+          auto db = createSQLiteBuildDB(path, c2, recreate != 0, &err);
+          KeyTable kt;
+          db->attachDelegate(&kt);
+          bool ok = false;
+          uint64_t epoch = db->getCurrentEpoch(&ok, &err);
+          std::vector<KeyType> keys;
+          std::vector<Result> results;
+          std::string err2;
+          bool ok2 = ok && db->getKeysWithResult(keys, results, &err2);
+          db.reset();
+          std::string what = "stored (schema " + std::string(stored == 0 ? "none" : std::to_string(S + stored - 2)) + ", client " + std::to_string(c) + ") opened with client " +
+                             std::to_string(c2) + (recreate ? " recreate" : " no-recreate");
+          std::string spec = "@matrix|" + w.spec + "|" + std::to_string(stored) + "," + std::to_string(c) + "," + std::to_string(c2) + "," + std::to_string(recreate);
+          res.count("version_matrix_cells");
+          if (same) {
+            if (!ok || !ok2 || keys.size() != (size_t)atoi(rows.c_str()) || epoch != 2)
+              res.violate("C03.matching-version-not-intact", what + ": contents not intact (ok=" + std::to_string(ok) + " keys=" + std::to_string(keys.size()) + " epoch=" + std::to_string(epoch) + ") " + err, spec);
+          } else if (recreate) {
+            if (!ok || !ok2 || !keys.empty() || epoch != 0)
+              res.violate("C03.mismatched-version-interpreted", what + ": expected an empty recreated database, got ok=" + std::to_string(ok) + " keys=" + std::to_string(keys.size()) + " epoch=" + std::to_string(epoch) + " " + err, spec);
+          } else {
+            if (ok) res.violate("C03.mismatched-version-accepted", what + ": opened without error (epoch " + std::to_string(epoch) + ", " + std::to_string(keys.size()) + " keys)", spec);
+            if (fileHash(path) != hashBefore) res.violate("C03.mismatched-version-file-modified", what + ": rejected but the file was modified", spec);
+          }
+        }
+}
+
+static void lockMatrix(const uv::World& w, vj::Result& res) {
+  // While engine A is inside a build (at every step), engine B on the same file
+  // must fail with an error and write nothing; A's build must be unaffected.
+  std::string path = dbDir + "/lock.db";
+  History h;
+  parseHistory("b b, s x 1", h);
+  Event last;
+  last.kind = 'b';
+  last.key = 'b';
+  int steps = 0;
+  for (int probeAt = 0;; ++probeAt) {
+    vj::Result scratch;
+    Config c;
+    c.useDB = true; c.dbPath = path;
+    c.checkC02 = false; c.checkProto = false; c.checkC07 = false;
+    Session a(w, c, scratch);
+    for (auto& ev : h) a.apply(ev);
+    std::string bReport;
+    bool probed = false;
+    if (probeAt > 0) {
+      a.probeAt = probeAt;
+      a.probe = [&]() {
+        probed = true;
+        std::string hashBefore = fileHash(path) + fileHash(path + "-journal");
+        vj::Result sb;
+        Config cb = c;
+        cb.keepDB = true;
+        cb.checkC01 = false; cb.checkPersist = false;
+        {
+          Session b(w, cb, sb);
+          b.ext = a.ext;
+          BuildObs ob;
+          Event eb;
+          eb.kind = 'b';
+          eb.key = 'b';
+          b.apply(eb, &ob);
+          bool attachFailed = false;
+          for (auto& v : sb.violations) if (v.cls.find("db-attach-failed") != std::string::npos) attachFailed = true;
+          if (ob.success) bReport += "second engine's build succeeded while the first build held the database; ";
+          else if (ob.errors.empty() && !attachFailed) bReport += "second engine's build failed without an error; ";
+        }
+        if (fileHash(path) + fileHash(path + "-journal") != hashBefore) bReport += "second engine modified the database or its journal; ";
+      };
+    }
+    BuildObs oa;
+    a.apply(last, &oa);
+    if (probeAt == 0) { steps = oa.steps; continue; }
+    res.count("lock_probes");
+    std::string spec = "@lock|" + w.spec + "|" + std::to_string(probeAt);
+    if (!probed) res.violate("C03.harness-probe-missed", "probe step not reached", spec);
+    if (!bReport.empty()) res.violate("C03.second-engine-not-locked-out", bReport + "(probe at step " + std::to_string(probeAt) + " of the first engine's build)", spec);
+    if (!oa.success) res.violate("C03.first-build-disturbed", "the first engine's build failed after a second engine tried to use the database: " + (oa.errors.empty() ? "" : oa.errors[0]), spec);
+    for (auto& v : scratch.violations) res.violate("C03.first-build-disturbed-" + v.cls.substr(v.cls.find('.') + 1), v.what, spec);
+    if (probeAt >= steps) break;
+  }
+}
+
+// SQLite's busy handler sleeps up to 5 s when the database is locked: virtualised.
+extern "C" int usleep(useconds_t) { return 0; }
+extern "C" unsigned int sleep(unsigned int) { return 0; }
+
 int main(int argc, char** argv) {
   args.parse(argc, argv);
   dbDir = "/dev/shm/verif-enginex-" + std::to_string(getpid());
@@ -419,6 +635,7 @@ int main(int argc, char** argv) {
       "in-build schedules (sync/deferred completion, delivery order) within a deviation bound x cancellation points; a case is one "
       "history executed on a fresh real engine; distinct = distinct canonical state (engine dump + database + external state)";
 
+  if (args.replaySpec.compare(0, 5, "twin|") == 0) args.replaySpec = args.replaySpec.substr(5), args.extra = "twin";
   if (!args.replaySpec.empty()) {
     // "<mode>|<world>|<history>"
     auto a = args.replaySpec.find('|');
@@ -430,6 +647,12 @@ int main(int argc, char** argv) {
     History h;
     if (!uv::parseWorld(world, w, &err) || !parseMode(mode, m) || !parseHistory(hist, h)) { fprintf(stderr, "bad replay spec %s\n", err.c_str()); return 3; }
     Explorer ex(w, m, res);
+    if (args.extra == "twin") {
+      ex.cfg.checkC02 = false; ex.cfg.checkProto = false; ex.cfg.checkC07 = false; ex.cfg.checkPersist = false;
+      ex.cfg.hostileValues = true;
+      ex.cfg.rename = {{'a', std::string("a\0z", 3)}, {'b', std::string("\xff b")}, {'c', "01"}, {'x', std::string("x\0", 2)}, {'y', std::string("\0", 1)}, {'z', "1"}};
+      ex.twin(h);
+    }
     RunOut o = ex.run(h, /*judgeAll=*/true);
     printf("replayed: %s\nfinal state:\n%s\n", historyStr(h).c_str(), o.key.c_str());
     for (auto& b : o.builds) printf("  build %c: %s reasons: %s steps=%d\n", b.key, b.orderFreeSummary().c_str(), b.reasons.c_str(), b.steps);
@@ -458,8 +681,22 @@ int main(int argc, char** argv) {
     for (auto& wd : worlds) { work.push_back({wd, "mem"}); work.push_back({wd, "db"}); if (T) work.push_back({wd, "db+force"}); }
   } else if (p == "C06") {
     for (auto& wd : worlds) { work.push_back({wd, "mem"}); work.push_back({wd, "db"}); }
+  } else if (p == "C20") {
+    // the sub-family expressible through core.h: no single-use requests, no signatures / redefinition
+    for (auto& wd : worlds) {
+      if (wd.find("/S") != std::string::npos || wd.find('\'') != std::string::npos) continue;
+      work.push_back({wd, "mem"});
+      work.push_back({wd, "db"});
+    }
   } else if (p == "C03") {
     for (auto& wd : worlds) work.push_back({wd, "db"});
+    // (3) byte-string keys and values: hostile spellings of every key
+    const char* kw[] = {"a: x y; b: a; c: b a", "a: x; b: y; c: a ?0=1>b", "a: x !y; b: a z", "a: x; b: a/S y; c: b a/M w", "a: x y %collapse; b: a; c: b z; d: c a w"};
+    for (int ks = 1; ks <= 4; ++ks)
+      for (auto* wd : kw) work.push_back({wd, "db+k" + std::to_string(ks)});
+    // (4) version and lock matrix
+    work.push_back({"a: x; b: a y", "@matrix"});
+    work.push_back({"a: x; b: a y", "@lock"});
   } else {
     for (auto& wd : worlds) { work.push_back({wd, "mem"}); work.push_back({wd, "db"}); }
     if (p == "C01") {
@@ -470,10 +707,65 @@ int main(int argc, char** argv) {
     }
   }
 
+  g_current = (char*)mmap(nullptr, 65536, PROT_READ | PROT_WRITE, MAP_SHARED | MAP_ANONYMOUS, -1, 0);
   for (size_t i = 0; i < work.size(); ++i) {
     if ((int)(i % args.nshards) != args.shard) continue;
     if (args.overBudget()) { res.exhaustive = false; res.count("worlds_skipped_budget"); continue; }
-    exploreWorld(work[i].first, work[i].second, res);
+    // one child per world: a crash of the code under test is an observed outcome
+    std::string tmp = dbDir + "/item.out";
+    g_current[0] = 0;
+    pid_t pid = fork();
+    if (pid == 0) {
+      vj::Result r;
+      exploreWorld(work[i].first, work[i].second, r);
+      FILE* f = fopen(tmp.c_str(), "w");
+      for (auto& kv : r.counters) fprintf(f, "C\t%s\t%lld\n", kv.first.c_str(), kv.second);
+      for (auto& sm : r.samples) fprintf(f, "S\t%s\n", sm.c_str());
+      for (auto& v : r.violations) fprintf(f, "V\t%s\t%s\t%s\n", vj::esc(v.cls).c_str(), vj::esc(v.what).c_str(), vj::esc(v.spec).c_str());
+      fprintf(f, "X\t%d\n", r.exhaustive ? 1 : 0);
+      fclose(f);
+      _exit(0);
+    }
+    int st = 0;
+    waitpid(pid, &st, 0);
+    if (!WIFEXITED(st) || WEXITSTATUS(st) != 0) {
+      std::string cur = g_current;
+      res.violate(args.prop + ".crash", "the process crashed (" + (WIFSIGNALED(st) ? "signal " + std::to_string(WTERMSIG(st)) : "exit " + std::to_string(WEXITSTATUS(st))) +
+                                            ") while executing: " + cur, cur);
+      res.exhaustive = false;
+      continue;
+    }
+    FILE* f = fopen(tmp.c_str(), "r");
+    if (!f) { fprintf(stderr, "enginex: missing item output\n"); return 3; }
+    char* line = nullptr;
+    size_t cap = 0;
+    ssize_t n;
+    auto unesc = [](const std::string& e) {
+      std::string o;
+      for (size_t i = 0; i < e.size(); ++i) {
+        if (e[i] != '\\' || i + 1 >= e.size()) { o += e[i]; continue; }
+        char c = e[++i];
+        if (c == 'n') o += '\n'; else if (c == 't') o += '\t'; else if (c == 'r') o += '\r';
+        else if (c == 'u' && i + 4 < e.size()) { o += (char)strtol(e.substr(i + 1, 4).c_str(), nullptr, 16); i += 4; }
+        else o += c;
+      }
+      return o;
+    };
+    while ((n = getline(&line, &cap, f)) > 0) {
+      std::string l(line, (size_t)n);
+      if (!l.empty() && l.back() == '\n') l.pop_back();
+      std::vector<std::string> parts;
+      size_t p0 = 0;
+      for (size_t t; (t = l.find('\t', p0)) != std::string::npos; p0 = t + 1) parts.push_back(l.substr(p0, t - p0));
+      parts.push_back(l.substr(p0));
+      if (parts[0] == "C" && parts.size() == 3) {
+        if (parts[1].compare(0, 4, "max_") == 0) res.maxOf(parts[1], atoll(parts[2].c_str())); else res.count(parts[1], atoll(parts[2].c_str()));
+      } else if (parts[0] == "S" && parts.size() >= 2) res.sample(l.substr(2));
+      else if (parts[0] == "V" && parts.size() == 4) res.violate(unesc(parts[1]), unesc(parts[2]), unesc(parts[3]));
+      else if (parts[0] == "X" && parts[1] == "0") res.exhaustive = false;
+    }
+    free(line);
+    fclose(f);
   }
   // model_checking evidence keys
   res.counters["traces_validated_against_impl"] = res.counters["executions"];
